@@ -4,7 +4,8 @@ import NixModel.Generated.UnitsScaling
 /-!
 # `scaling()` over the statement shape regenerated from the source
 
-`Generated/UnitsScaling.lean` holds the shape of `nixio/util/units.py:scaling` — the shortcut's comparisons, the
+`Generated/UnitsScaling.lean` holds the shape of `is_si`, of `scalable` (which operands must be SI, which split
+components are compared) and of `nixio/util/units.py:scaling` — the shortcut's comparisons, the
 if/elif chain on the two prefixes with the expression each branch assigns, the else branch, which power text is
 applied.  This file interprets that shape; `Lemmas/UnitsScalingEq.lean` proves that the result is the hand-written
 `Nix.Units.scaling` for all inputs, so the theorems about `Nix.Units.scaling` are theorems about the code's shape
@@ -13,6 +14,24 @@ The C09 driver runs this function.
 -/
 namespace Nix.Units.Scaling
 open Nix.Units Nix.Units.Gen
+
+/-- truth value of the expression `is_si` returns -/
+def evalSi (s : Str) : SiExpr → Bool
+  | .nonEmpty => !s.isEmpty
+  | .atomic => isAtomic s
+  | .compound => isCompound s
+  | .and a b => evalSi s a && evalSi s b
+  | .or a b => evalSi s a || evalSi s b
+
+/-- `is_si(unit)` -/
+def isSi (s : Str) : Bool := evalSi s isSiShape
+
+/-- `scalable(units_a, units_b)` on two strings: the SI guard, then the comparison of the split components -/
+def scalable (a b : Str) : Bool :=
+  if !((!scalableNeedsSiA || isSi a) && (!scalableNeedsSiB || isSi b)) then false
+  else if (scalableComparesUnit && (split a).2.1 != (split b).2.1) ||
+      (scalableComparesPower && (split a).2.2 != (split b).2.2) then false
+  else true
 
 /-- evaluate an assigned expression; `fo`/`fd` are `PREFIX_FACTORS[org_prefix]` / `[dest_prefix]` (`none` = KeyError) -/
 def evalExpr (fo fd : Option Rat) : ScaleExpr → Option Rat
@@ -56,7 +75,7 @@ def scalingCore (op dp opow dpow : Str) : Except Err Rat :=
 
 /-- `scaling(origin, destination)` -/
 def scaling (a b : Str) : Except Err Rat :=
-  if !scalable a b then .error .invalidUnit
+  if !Scaling.scalable a b then .error .invalidUnit
   else scalingCore (split a).1 (split b).1 (split a).2.2 (split b).2.2
 
 end Nix.Units.Scaling
